@@ -161,9 +161,8 @@ def run(ctx):
         "branches_hit_total": dict(tags), "branches_hit_calls": dict(tag_calls),
         "dimension_histogram": dict(hist_n), "input_rows_histogram": dict(hist_rows),
         "simplify_cgs_flag": dict(flags), "mismatch_histogram": dict(mism), "samples": samples,
-        "compared": "rows, dim_kinds, flag exactly (model vs real); triangular form and K2 equivalence of the real output",
+        "compared": "rows, dim_kinds, flag exactly (model vs real); on the real output: triangular form (upper/lowerTriangular, gnormB), certificate checkers gcCertB/cgCertB, K2 equivalence with the input (equivB of consToGens / gensOf)",
     }
-    ctx.cov["traces_validated_against_impl"] = ctx.cov.get("traces_validated_against_impl", 0)
     ctx.assumptions += [
         "C05 stage 2: mpz_gcdext is modelled by its documented choice of the Bezout pair (|s| < |b|/(2g), tie s = sgn a), "
         "validated on every journalled gcdext_assign call; the theorems only use s*a + t*b = gcd(a,b)",
